@@ -9,7 +9,7 @@ import tempfile
 
 from hypothesis import strategies as st
 
-from vk.c20_common import build, expected_row, header_for, mask_time, parse, read_raw
+from vk.c20_common import build, expected_row, header_for, mask_time, num, parse, read_raw
 from vk.core import VERIF_DIR, Facet
 
 LEVEL = "fault_enumeration"
@@ -36,7 +36,9 @@ ASSUMPTIONS = [
 def csv_cases(draw, max_len=8):
     k = draw(st.integers(1, 4))
     n = draw(st.integers(1, max_len))
-    values = [[draw(st.integers(-3, 9)) for _ in range(k)] for _ in range(n)]
+    # small ints, and (for one objective) the "invalid program" idiom: an infinite fitness
+    val = st.integers(-3, 9) if k > 1 else st.one_of(st.integers(-3, 9), st.integers(-3, 9), st.sampled_from(["inf", "-inf"]))
+    values = [[draw(val) for _ in range(k)] for _ in range(n)]
     return {
         "objectives": k,
         "force_multi": draw(st.booleans()) if k == 1 else True,
@@ -188,7 +190,7 @@ class Histories(Facet):
                 single = case["objectives"] == 1 and not case.get("force_multi")
 
                 def agg(vec):
-                    return sum(-v if m else v for v, m in zip(vec, case["minimize"]))
+                    return sum(-num(v) if m else num(v) for v, m in zip(vec, case["minimize"]))
 
                 best = None
                 for j, (idx, flag) in enumerate(flags):
